@@ -195,6 +195,25 @@ func (e *Exec) scenarioShape(path string, t types.Type, a string) ([]altFn, bool
 			s.CellTypes[r.Cell] = p.Elem()
 			return r
 		}, a)
+	case "imports": // imports(path:name;path:name): a []codegen.Import
+		return one(func(s *State) Val {
+			impT := w.namedType("pkg/codegen", "Import")
+			var els []Val
+			for _, spec := range strings.Split(strings.Join(args, ","), ";") {
+				spec = strings.TrimSpace(spec)
+				if spec == "" {
+					continue
+				}
+				p := strings.SplitN(spec, ":", 2)
+				els = append(els, mkStruct(impT, map[string]Val{"QualifiedName": lit(p[0]), "Name": lit(p[1])}))
+			}
+			if len(els) == 0 {
+				return SliceV{}
+			}
+			r := s.alloc(&Agg{Elems: els})
+			delete(s.Fresh, r.Cell)
+			return SliceV{Arr: r, Len_: len(els), Cap: len(els)}
+		}, a)
 	case "strs": // strs(a,b): a slice of concrete strings
 		return one(func(s *State) Val {
 			var els []Val
